@@ -482,6 +482,12 @@ theorem harmless_replace (S : Sem ρ) (l cls : Nat) (ins : List Src) (kids : Kid
     ValidKids S (removeKidC l kids ++ [(l, freshLeaf S cls ins)]) :=
   harmless_add S l cls ins _ (valid_removeKidC S l kids hv)
 
+/-- a replacement INSTANCE with a run history of its own: `replace_child` gives it the old node's inputs and
+outputs and drops its input cache — whatever it remembered and whatever its output was, no entry is fabricated -/
+theorem harmless_replace_used (S : Sem ρ) (l cls : Nat) (ins : List Src) (o : ρ) (kids : Kids ρ) (hv : ValidKids S kids) :
+    ValidKids S (removeKidC l kids ++ [(l, .leaf cls ins o none)]) :=
+  valid_append S _ _ (valid_removeKidC S l kids hv) (by simp [ValidKids, ValidPair, ValidT])
+
 /-! ## the outermost composite under histories -/
 
 def ValidRoot (S : Sem ρ) (r : Root ρ) : Prop :=
